@@ -35,6 +35,38 @@ Proof. destruct a, b; simpl; intros; try reflexivity; discriminate. Qed.
 Lemma dtype_eqb_refl : forall a, dtype_eqb a a = true.
 Proof. destruct a; reflexivity. Qed.
 
+(* ------------------------------------------------------------------------------- numpy's common type *)
+
+Lemma join_comm : forall a b, join a b = join b a.
+Proof. destruct a, b; reflexivity. Qed.
+
+Lemma join_assoc : forall a b c, join a (join b c) = join (join a b) c.
+Proof. destruct a, b, c; reflexivity. Qed.
+
+Lemma join_idem : forall a, join a a = a.
+Proof. destruct a; reflexivity. Qed.
+
+Lemma join_U8_r : forall a, join a U8 = a.
+Proof. destruct a; reflexivity. Qed.
+
+Lemma join_U8_l : forall a, join U8 a = a.
+Proof. destruct a; reflexivity. Qed.
+
+Lemma join_F64_l : forall a, join F64 a = F64.
+Proof. destruct a; reflexivity. Qed.
+
+Lemma join_unsigned : forall a b, is_unsigned a = true -> is_unsigned b = true -> is_unsigned (join a b) = true.
+Proof. destruct a, b; simpl; intros; try reflexivity; discriminate. Qed.
+
+Lemma dtype_le_refl : forall a, dtype_le a a = true.
+Proof. destruct a; reflexivity. Qed.
+
+Lemma dtype_le_join_l : forall a b, dtype_le a (join a b) = true.
+Proof. destruct a, b; reflexivity. Qed.
+
+Lemma dtype_le_trans : forall a b c, dtype_le a b = true -> dtype_le b c = true -> dtype_le a c = true.
+Proof. destruct a, b, c; simpl; intros; try reflexivity; discriminate. Qed.
+
 (* ---------------------------------------------------------------------------- fix_all / labels *)
 
 Lemma fix_all_labels : forall cur d, map fst (fix_all cur d) = map fst d.
@@ -50,12 +82,181 @@ Proof.
   intros [l s] Hy. pose proof (H _ Hy) as E. simpl in *. rewrite E. reflexivity.
 Qed.
 
+(* ------------------------------------------------------------ one variable, one dtype: `promote` *)
+
+Lemma build_snapshot_get : forall s, build_snapshot (fun v => get s v) = s.
+Proof. destruct s; reflexivity. Qed.
+
+Lemma build_snapshot_ext : forall f g, (forall v, f v = g v) -> build_snapshot f = build_snapshot g.
+Proof. intros f g H. unfold build_snapshot. rewrite !H. reflexivity. Qed.
+
+Lemma get_build_snapshot : forall f b, get (build_snapshot f) b = f b.
+Proof. intros f b. destruct b; reflexivity. Qed.
+
+Lemma get_promote_slice : forall cs s b, get (promote_slice cs s) b = option_map (widen (cs b)) (get s b).
+Proof. intros. unfold promote_slice. apply get_build_snapshot. Qed.
+
+Lemma promote_slice_ext : forall cs cs' s, (forall b, cs b = cs' b) -> promote_slice cs s = promote_slice cs' s.
+Proof. intros. unfold promote_slice. apply build_snapshot_ext. intros b. rewrite H. reflexivity. Qed.
+
+Lemma widen_widen : forall t t' a, widen t (widen t' a) = widen t a.
+Proof. reflexivity. Qed.
+
+Lemma widen_same : forall a, widen (a_dt a) a = a.
+Proof. destruct a; reflexivity. Qed.
+
+Lemma promote_slice_twice : forall cs cs' s, promote_slice cs (promote_slice cs' s) = promote_slice cs s.
+Proof.
+  intros. unfold promote_slice at 1. unfold promote_slice at 2. apply build_snapshot_ext. intros b.
+  rewrite get_promote_slice. destruct (get s b); reflexivity.
+Qed.
+
+Lemma promote_labels : forall d, map fst (promote d) = map fst d.
+Proof. intros. unfold promote. rewrite map_map. apply map_ext. reflexivity. Qed.
+
+Lemma promote_length : forall d, List.length (promote d) = List.length d.
+Proof. intros. unfold promote. apply map_length. Qed.
+
+(* the dtype slice ls contributes to variable b *)
+Definition sdt (b : bucket) (ls : slice) : dtype := odt (get (snd ls) b).
+
+Lemma common_fold : forall b d, common b d = fold_right (fun ls acc => join (sdt b ls) acc) U8 d.
+Proof. reflexivity. Qed.
+
+Lemma fold_join_acc : forall (g : slice -> dtype) l z,
+  fold_right (fun x acc => join (g x) acc) z l = join (fold_right (fun x acc => join (g x) acc) U8 l) z.
+Proof.
+  induction l as [|x l IH]; intros z; cbn [fold_right]; [rewrite join_U8_l; reflexivity|].
+  rewrite IH, join_assoc. reflexivity.
+Qed.
+
+Lemma common_app : forall b a c, common b (a ++ c) = join (common b a) (common b c).
+Proof. intros. rewrite !common_fold, fold_right_app. apply fold_join_acc. Qed.
+
+(* the common type is an upper bound of every slice's type *)
+Lemma common_absorbs : forall b d ls, In ls d -> join (sdt b ls) (common b d) = common b d.
+Proof.
+  induction d as [|x d IH]; intros ls Hin; [contradiction|]. rewrite common_fold. simpl. rewrite <- common_fold.
+  destruct Hin as [->|Hin].
+  - rewrite join_assoc, join_idem. reflexivity.
+  - rewrite (join_comm (sdt b x)), join_assoc, (IH _ Hin). reflexivity.
+Qed.
+
+Theorem common_upper : forall b d ls a,
+  In ls d -> get (snd ls) b = Some a -> dtype_le (a_dt a) (common b d) = true.
+Proof.
+  intros b d ls a Hin Hg. unfold dtype_le. pose proof (common_absorbs b d ls Hin) as H.
+  unfold sdt in H. rewrite Hg in H. simpl in H. rewrite H. apply dtype_eqb_refl.
+Qed.
+
+Lemma fold_join_with : forall (g : slice -> dtype) T l, l <> [] ->
+  fold_right (fun x acc => join (join (g x) T) acc) U8 l = join (fold_right (fun x acc => join (g x) acc) U8 l) T.
+Proof.
+  induction l as [|x l IH]; intros Hne; [congruence|]. simpl.
+  destruct l as [|y l].
+  - simpl. rewrite !join_U8_r. reflexivity.
+  - rewrite IH by discriminate.
+    set (R := fold_right (fun x0 acc => join (g x0) acc) U8 (y :: l)).
+    rewrite <- !join_assoc. f_equal. rewrite (join_comm T), <- join_assoc, join_idem. reflexivity.
+Qed.
+
+(* after the promotion every slice of variable b contributes the common type *)
+Lemma sdt_promoted : forall b d cs ls, In ls d -> cs b = common b d ->
+  sdt b (fst ls, promote_slice cs (snd ls)) = join (sdt b ls) (common b d).
+Proof.
+  intros b d cs ls Hin Hcs. unfold sdt. simpl. rewrite get_promote_slice, Hcs.
+  pose proof (common_absorbs b d ls Hin) as H. unfold sdt in H.
+  destruct (get (snd ls) b) as [a|]; simpl in *.
+  - symmetry. exact H.
+  - reflexivity.
+Qed.
+
+Lemma fold_right_map' : forall (A B C : Type) (f : B -> C -> C) (g : A -> B) z l,
+  fold_right f z (map g l) = fold_right (fun x acc => f (g x) acc) z l.
+Proof. induction l; simpl; [reflexivity|]. rewrite IHl. reflexivity. Qed.
+
+Lemma common_promote : forall b d, common b (promote d) = common b d.
+Proof.
+  intros b d. destruct d as [|x d]; [reflexivity|].
+  set (l := x :: d). rewrite common_fold. unfold promote. rewrite fold_right_map'.
+  transitivity (fold_right (fun ls acc => join (join (sdt b ls) (common b l)) acc) U8 l).
+  - assert (G : forall l', (forall ls, In ls l' -> In ls l) ->
+              fold_right (fun ls acc => join (sdt b (fst ls, promote_slice (fun b0 => common b0 l) (snd ls))) acc) U8 l'
+              = fold_right (fun ls acc => join (join (sdt b ls) (common b l)) acc) U8 l').
+    { induction l' as [|y l' IH]; intros Hsub; [reflexivity|]. cbn [fold_right].
+      rewrite (sdt_promoted b l (fun b0 => common b0 l) y) by (try reflexivity; apply Hsub; left; reflexivity).
+      rewrite IH by (intros ls Hls; apply Hsub; right; exact Hls). reflexivity. }
+    apply G. auto.
+  - rewrite fold_join_with by (unfold l; discriminate). rewrite <- common_fold. apply join_idem.
+Qed.
+
+Theorem promote_absorb : forall a c, promote (promote a ++ c) = promote (a ++ c).
+Proof.
+  intros a c.
+  assert (C : forall b, common b (promote a ++ c) = common b (a ++ c)).
+  { intros b. rewrite !common_app, common_promote. reflexivity. }
+  unfold promote in *. rewrite !map_app, map_map. f_equal; apply map_ext; intros [l s]; simpl; f_equal;
+    [rewrite promote_slice_twice|]; apply promote_slice_ext; exact C.
+Qed.
+
+Lemma promote_single : forall x, promote [x] = [x].
+Proof.
+  intros [l s]. unfold promote. simpl. f_equal. f_equal.
+  transitivity (build_snapshot (fun v => get s v)); [|apply build_snapshot_get].
+  unfold promote_slice. apply build_snapshot_ext. intros b. rewrite join_U8_r.
+  destruct (get s b) as [a|]; simpl; [rewrite widen_same|]; reflexivity.
+Qed.
+
+(* the promotion changes no label, no value, no shape; the dtype of every slice of variable b becomes the common one *)
+Theorem promote_values : forall d b,
+  map (fun ls => (fst ls, option_map a_vals (get (snd ls) b), option_map a_shape (get (snd ls) b))) (promote d)
+  = map (fun ls => (fst ls, option_map a_vals (get (snd ls) b), option_map a_shape (get (snd ls) b))) d.
+Proof.
+  intros. unfold promote. rewrite map_map. apply map_ext. intros [l s]. simpl.
+  rewrite get_promote_slice. destruct (get s b); reflexivity.
+Qed.
+
+Theorem promote_dtypes : forall d b,
+  map (fun ls => option_map a_dt (get (snd ls) b)) (promote d)
+  = map (fun ls => option_map (fun _ => common b d) (get (snd ls) b)) d.
+Proof.
+  intros. unfold promote. rewrite map_map. apply map_ext. intros [l s]. simpl.
+  rewrite get_promote_slice. destruct (get s b); reflexivity.
+Qed.
+
+(* every variable has the same dtype at every step: nothing is converted *)
+Lemma common_uniform : forall b d t, d <> [] ->
+  (forall ls, In ls d -> sdt b ls = t) -> common b d = t.
+Proof.
+  induction d as [|x d IH]; intros t Hne H; [congruence|]. rewrite common_fold. simpl. rewrite <- common_fold.
+  rewrite (H x) by (left; reflexivity). destruct d as [|y d].
+  - simpl. apply join_U8_r.
+  - rewrite (IH t) by (try discriminate; intros ls Hls; apply H; right; exact Hls). apply join_idem.
+Qed.
+
+Theorem promote_uniform : forall d, (forall b, uniform b d) -> promote d = d.
+Proof.
+  intros d H. unfold promote. rewrite <- (map_id d) at 2. apply map_ext_in. intros [l s] Hin. simpl. f_equal.
+  transitivity (build_snapshot (fun v => get s v)); [|apply build_snapshot_get].
+  unfold promote_slice. apply build_snapshot_ext. intros b.
+  destruct (H b) as [Hn|[t Ht]].
+  - pose proof (Hn _ Hin) as E. simpl in E. rewrite E. reflexivity.
+  - destruct (Ht _ Hin) as [a [Ha Hd]]. simpl in Ha. rewrite Ha. simpl. f_equal.
+    rewrite (common_uniform b d t).
+    + rewrite <- Hd. apply widen_same.
+    + intros E. rewrite E in Hin. contradiction.
+    + intros ls Hls. destruct (Ht _ Hls) as [a' [Ha' Hd']]. unfold sdt. rewrite Ha'. exact Hd'.
+Qed.
+
 (* ------------------------------------------------------- concatenation: no slice lost, none invented *)
+
+Lemma concat_step_labels : forall d x, map fst (concat_step d x) = map fst d ++ [fst x].
+Proof. intros. unfold concat_step. rewrite fix_all_labels, promote_labels, map_app. reflexivity. Qed.
 
 Lemma assemble_from_labels : forall xs d, map fst (assemble_from d xs) = map fst d ++ map fst xs.
 Proof.
   induction xs as [|x xs IH]; simpl; intros d; [rewrite app_nil_r; reflexivity|].
-  rewrite IH. unfold concat_step. rewrite fix_all_labels, map_app. simpl. rewrite <- app_assoc. reflexivity.
+  rewrite IH, concat_step_labels, <- app_assoc. reflexivity.
 Qed.
 
 (* the labels of the result are the readout labels, in readout order, one slice per readout --
@@ -67,29 +268,6 @@ Proof.
   assert (H : map fst (assemble xs) = map fst xs).
   { destruct xs as [|x xs]; simpl; [reflexivity|]. rewrite assemble_from_labels. reflexivity. }
   split; [exact H|]. apply (f_equal (@List.length Z)) in H. rewrite !map_length in H. exact H.
-Qed.
-
-Definition stable_sl (all : list slice) : Prop :=
-  forall x y, In x all -> In y all -> fix_image (s_image (snd x)) (snd y) = snd y.
-
-Lemma assemble_from_stable : forall xs d,
-  stable_sl (d ++ xs) -> assemble_from d xs = d ++ xs.
-Proof.
-  induction xs as [|x xs IH]; simpl; intros d Hst.
-  - rewrite app_nil_r. reflexivity.
-  - unfold concat_step. rewrite fix_all_id.
-    2:{ intros y Hy. apply Hst.
-        - apply in_or_app. right. left. reflexivity.
-        - apply in_app_or in Hy. apply in_or_app. destruct Hy as [Hy|Hy]; [left; exact Hy|].
-          right. destruct Hy as [<-|[]]. left. reflexivity. }
-    replace (d ++ x :: xs) with ((d ++ [x]) ++ xs) in * by (rewrite <- app_assoc; reflexivity).
-    apply IH; assumption.
-Qed.
-
-Lemma assemble_stable : forall xs, stable_sl xs -> assemble xs = xs.
-Proof.
-  destruct xs as [|x xs]; simpl; intros; [reflexivity|].
-  apply (assemble_from_stable xs [x]); assumption.
 Qed.
 
 (* ------------------------------------------------------------------------------- image dtype *)
@@ -108,50 +286,67 @@ Qed.
 Lemma cast_to_same : forall a, cast_to (a_dt a) a = a.
 Proof. unfold cast_to. intros. rewrite dtype_eqb_refl. reflexivity. Qed.
 
-Lemma fix_image_dtype : forall t c s,
-  a_dt c = t -> image_has_dtype t s -> image_has_dtype t (fix_image (Some c) s).
+Lemma common_image_unsigned : forall d,
+  (forall ls, In ls d -> exists a, s_image (snd ls) = Some a /\ is_unsigned (a_dt a) = true) ->
+  is_unsigned (common Image d) = true.
 Proof.
-  unfold image_has_dtype, fix_image. intros t c s Hc [a [Ha Hd]]. rewrite Ha.
-  eexists. split; [apply s_image_set|]. rewrite Hc. apply cast_to_dtype.
+  induction d as [|x d IH]; intros H; [reflexivity|]. rewrite common_fold. simpl. rewrite <- common_fold.
+  apply join_unsigned.
+  - destruct (H x (or_introl eq_refl)) as [a [Ha Hu]]. unfold sdt. simpl. rewrite Ha. exact Hu.
+  - apply IH. intros ls Hls. apply H. right. exact Hls.
 Qed.
 
-Lemma assemble_from_image_dtype : forall t xs d,
-  Forall (fun ls => image_has_dtype t (snd ls)) d ->
-  Forall (fun ls => image_has_dtype t (snd ls)) xs ->
-  Forall (fun ls => image_has_dtype t (snd ls)) (assemble_from d xs).
+(* images of unsigned types only (or none at all): the dtype restoration has nothing to do *)
+Lemma regular_fix_id : forall d cur, image_regular (map snd d) -> fix_all cur (promote d) = promote d.
 Proof.
-  induction xs as [|x xs IH]; simpl; intros d Hd Hx; [exact Hd|].
-  inversion Hx as [|? ? Hx1 Hx2]; subst.
-  apply IH; [|exact Hx2].
-  destruct Hx1 as [c [Hc Hct]].
-  unfold concat_step, fix_all. rewrite Forall_forall. intros z Hz.
-  apply in_map_iff in Hz. destruct Hz as [[l s] [E Hin]]. subst z. simpl.
-  rewrite Hc. apply fix_image_dtype; [exact Hct|].
-  apply in_app_or in Hin. destruct Hin as [Hin|[E|[]]].
-  - rewrite Forall_forall in Hd. apply (Hd _ Hin).
-  - subst x. simpl in *. exists c. auto.
+  intros d cur Hreg. apply fix_all_id. intros y Hy. unfold promote in Hy. apply in_map_iff in Hy.
+  destruct Hy as [[l s] [<- Hin]]. simpl. unfold fix_image.
+  change (s_image (promote_slice (fun b => common b d) s)) with (get (promote_slice (fun b => common b d) s) Image).
+  rewrite get_promote_slice.
+  destruct Hreg as [Hn|Hu].
+  - assert (E : s_image s = None) by (apply Hn; apply in_map_iff; exists (l, s); auto).
+    simpl. rewrite E. reflexivity.
+  - assert (U : is_unsigned (common Image d) = true).
+    { apply common_image_unsigned. intros ls Hls. apply Hu. apply in_map. exact Hls. }
+    simpl. destruct (s_image s); simpl; [|reflexivity]. destruct cur; [|reflexivity]. rewrite U. reflexivity.
 Qed.
 
-Theorem assemble_image_dtype : forall t xs,
+Lemma regular_sub : forall (a b : list snapshot), image_regular b -> (forall s, In s a -> In s b) -> image_regular a.
+Proof. intros a b [H|H] Hs; [left|right]; intros s Hin; apply H; apply Hs; exact Hin. Qed.
+
+Lemma assemble_from_promote : forall xs d0,
+  image_regular (map snd (d0 ++ xs)) -> assemble_from (promote d0) xs = promote (d0 ++ xs).
+Proof.
+  induction xs as [|x xs IH]; simpl; intros d0 Hreg; [rewrite app_nil_r; reflexivity|].
+  unfold concat_step. rewrite promote_absorb, regular_fix_id.
+  - replace (d0 ++ x :: xs) with ((d0 ++ [x]) ++ xs) in * by (rewrite <- app_assoc; reflexivity).
+    apply IH. exact Hreg.
+  - eapply regular_sub; [exact Hreg|]. intros s Hs. rewrite map_app in *. apply in_app_or in Hs.
+    apply in_or_app. destruct Hs as [Hs|Hs]; [left; exact Hs|right]. simpl in *. destruct Hs as [Hs|[]]. left. exact Hs.
+Qed.
+
+(* the assembled result: every slice as it was, every variable converted to its common type *)
+Theorem assemble_regular : forall xs, image_regular (map snd xs) -> assemble xs = promote xs.
+Proof.
+  destruct xs as [|x xs]; simpl; intros H; [reflexivity|].
+  rewrite <- (promote_single x). apply (assemble_from_promote xs [x]). exact H.
+Qed.
+
+Theorem assemble_image_dtype : forall t xs, is_unsigned t = true ->
   Forall (fun ls => image_has_dtype t (snd ls)) xs ->
   Forall (fun ls => image_has_dtype t (snd ls)) (assemble xs).
 Proof.
-  destruct xs as [|x xs]; simpl; intros Hx; [constructor|].
-  inversion Hx; subst.
-  apply assemble_from_image_dtype; [constructor; [assumption|constructor]|assumption].
-Qed.
-
-(* ------------------------------------------------- one image dtype: the restoration changes nothing *)
-
-Lemma set_image_same : forall s a, s_image s = Some a -> set s Image (Some a) = s.
-Proof. destruct s; simpl; intros; subst; reflexivity. Qed.
-
-Theorem uniform_image_stable : forall snaps, image_uniform snaps -> image_stable snaps.
-Proof.
-  unfold image_uniform, image_stable. intros snaps [Hn|[t H]] s s' Hs Hs'.
-  - unfold fix_image. rewrite (Hn s Hs). reflexivity.
-  - destruct (H s Hs) as [a [Ha Hd]]. destruct (H s' Hs') as [c [Hc Hcd]].
-    unfold fix_image. rewrite Ha, Hc, Hcd, <- Hd, cast_to_same. apply set_image_same. exact Ha.
+  intros t xs Ht Hx. rewrite Forall_forall in Hx. rewrite assemble_regular.
+  - rewrite Forall_forall. intros y Hy. unfold promote in Hy. apply in_map_iff in Hy.
+    destruct Hy as [[l s] [<- Hin]]. simpl. destruct (Hx _ Hin) as [a [Ha Hd]]. simpl in Ha.
+    unfold image_has_dtype.
+    change (s_image (promote_slice (fun b => common b xs) s)) with (get (promote_slice (fun b => common b xs) s) Image).
+    rewrite get_promote_slice. simpl. rewrite Ha. simpl. eexists. split; [reflexivity|]. simpl.
+    apply common_uniform.
+    + intros E. rewrite E in Hin. contradiction.
+    + intros ls Hls. destruct (Hx _ Hls) as [a' [Ha' Hd']]. unfold sdt. simpl. rewrite Ha'. exact Hd'.
+  - right. intros s Hs. apply in_map_iff in Hs. destruct Hs as [ls [<- Hls]].
+    destruct (Hx _ Hls) as [a [Ha Hd]]. exists a. split; [exact Ha|]. rewrite Hd. exact Ht.
 Qed.
 
 (* ------------------------------------------------------------------------------- the exposure *)
@@ -237,12 +432,6 @@ Section Exposure.
   (* every variable of the step dataset is read out of the container of the same name *)
   Definition exports_all : Prop := forall v, source_of (tb_exported tbl) v = Some v.
 
-  Lemma build_snapshot_get : forall s, build_snapshot (fun v => get s v) = s.
-  Proof. destruct s; reflexivity. Qed.
-
-  Lemma build_snapshot_ext : forall f g, (forall v, f v = g v) -> build_snapshot f = build_snapshot g.
-  Proof. intros f g H. unfold build_snapshot. rewrite !H. reflexivity. Qed.
-
   Lemma export_id : exports_all -> forall s, export tbl s = s.
   Proof.
     intros H s. unfold export. transitivity (build_snapshot (fun v => get s v)); [|apply build_snapshot_get].
@@ -294,20 +483,25 @@ Section Exposure.
     List.length (labels c) = List.length (map view (ends_of c d_init)).
   Proof. intros. unfold ends_of. rewrite labels_length, map_length, end_states_length. reflexivity. Qed.
 
+  Lemma map_snd_combine_sub : forall (A B : Type) (l : list A) (m : list B) y, In y (map snd (combine l m)) -> In y m.
+  Proof.
+    intros A B l m y H. apply in_map_iff in H. destruct H as [x [<- Hx]]. apply (in_combine_snd _ _ l m x Hx).
+  Qed.
+
   (* C03_slices: for EVERY schedule *)
   Theorem slices_faithful : forall (c : config) (d_init : det),
     slices_safe -> exports_all ->
-    image_stable (map view (ends_of c d_init)) ->
-    t_buckets (exposure c d_init) = combine (labels c) (map view (ends_of c d_init)) /\
+    image_regular (map view (ends_of c d_init)) ->
+    t_buckets (exposure c d_init) = promote (combine (labels c) (map view (ends_of c d_init))) /\
     List.length (t_buckets (exposure c d_init)) = List.length (c_times c).
   Proof.
     intros c d_init Hsafe Hexp Hst. unfold Result.exposure. cbn [t_buckets]. fold (ends_of c d_init).
     rewrite (views_exact c _ Hsafe Hexp).
     pose proof (labels_views_length c d_init) as Hlen.
-    rewrite assemble_stable.
-    - split; [reflexivity|].
+    rewrite assemble_regular.
+    - split; [reflexivity|]. rewrite promote_length.
       etransitivity; [apply combine_length|]. rewrite <- Hlen, labels_length. lia.
-    - intros x y Hx Hy. apply Hst; eapply in_combine_snd; eauto.
+    - eapply regular_sub; [exact Hst|]. intros s Hs. apply (map_snd_combine_sub _ _ _ _ _ Hs).
   Qed.
 
   Lemma bucket_slices_combine : forall (ls : list Z) (ss : list snapshot) b,
@@ -333,13 +527,13 @@ Section Exposure.
 
   (* C03_image_dtype: no hypothesis on the values *)
   Theorem image_dtype_kept : forall (c : config) (d_init : det) t_,
-    slices_safe -> exports_all ->
+    slices_safe -> exports_all -> is_unsigned t_ = true ->
     Forall (fun d => image_has_dtype t_ (d_snap d)) (ends_of c d_init) ->
     Forall (fun ls => image_has_dtype t_ (snd ls)) (t_buckets (exposure c d_init)).
   Proof.
-    intros c d_init t_ Hsafe Hexp Hall. unfold Result.exposure. cbn [t_buckets]. fold (ends_of c d_init).
+    intros c d_init t_ Hsafe Hexp Hu Hall. unfold Result.exposure. cbn [t_buckets]. fold (ends_of c d_init).
     rewrite (views_exact c _ Hsafe Hexp).
-    apply assemble_image_dtype.
+    apply assemble_image_dtype; [exact Hu|].
     rewrite Forall_forall in *. intros x Hx. apply in_combine_snd in Hx.
     apply in_map_iff in Hx. destruct Hx as [d [<- Hd]].
     unfold image_has_dtype, view. rewrite extract_image. apply Hall. exact Hd.
@@ -440,6 +634,48 @@ Section Exposure.
     simpl. rewrite settle_nodes_id by (exact H || apply debug_models_length).
     rewrite debug_models_ideal by exact Hv. rewrite IH. reflexivity.
   Qed.
+
+  (* ---- the y / x labels ---- *)
+  Definition relabels_all : Prop := forall k, tb_relabel tbl k = true.
+
+  Lemma zlist_eqb_refl : forall l, zlist_eqb l l = true.
+  Proof. induction l; simpl; [reflexivity|]. rewrite Z.eqb_refl. exact IHl. Qed.
+
+  Lemma agree_all : forall dflt c l, l <> [] -> (forall x, In x l -> x = c) -> agree dflt l = Some c.
+  Proof.
+    intros dflt c [|x l] Hne H; [congruence|]. simpl.
+    rewrite (H x (or_introl eq_refl)).
+    replace (forallb (coords_eqb c) l) with true; [reflexivity|].
+    symmetry. apply forallb_forall. intros y Hy. rewrite (H y (or_intror Hy)).
+    unfold coords_eqb. rewrite !zlist_eqb_refl. reflexivity.
+  Qed.
+
+  Lemma step_var_coords_index : relabels_all -> forall shp (d : det) x,
+    In x (step_var_coords tbl shp d) -> x = index_coords shp.
+  Proof.
+    intros H shp d x Hx. unfold step_var_coords in Hx. apply in_flat_map in Hx.
+    destruct Hx as [[v src] [_ Hx]]. simpl in Hx. destruct (get (view d) src) as [a|]; [|contradiction].
+    destruct Hx as [<-|[]]. unfold var_coords. rewrite H. reflexivity.
+  Qed.
+
+  (* C03_coords: when every read-out sets the y / x coordinates, the bucket node is labelled with the row and
+     column indices -- whatever labels the photon cubes carry -- and no variable is ever re-aligned *)
+  Theorem coords_faithful : relabels_all -> forall (c : config) (d_init : det),
+    t_coords (exposure c d_init) = Some (index_coords (c_shape c)) \/
+    (t_coords (exposure c d_init) = Some ([], []) /\
+     forall d vs, In d (ends_of c d_init) -> In vs (tb_exported tbl) -> get (view d) (snd vs) = None).
+  Proof.
+    intros H c d_init. unfold Result.exposure. cbn [t_coords]. fold (ends_of c d_init). unfold result_coords.
+    destruct (flat_map (step_var_coords tbl (c_shape c)) (ends_of c d_init)) as [|x l] eqn:E.
+    - right. split; [reflexivity|]. intros d vs Hd Hvs.
+      destruct (get (view d) (snd vs)) as [a|] eqn:G; [|reflexivity]. exfalso.
+      assert (Hin : In (var_coords tbl (c_shape c) d (snd vs) a) (flat_map (step_var_coords tbl (c_shape c)) (ends_of c d_init))).
+      { apply in_flat_map. exists d. split; [exact Hd|]. unfold step_var_coords. apply in_flat_map.
+        exists vs. split; [exact Hvs|]. rewrite G. left. reflexivity. }
+      rewrite E in Hin. contradiction.
+    - left. apply agree_all; [discriminate|]. intros y Hy. rewrite <- E in Hy. apply in_flat_map in Hy.
+      destruct Hy as [d [_ Hy]]. eapply step_var_coords_index; eauto.
+  Qed.
 End Exposure.
 
 Lemma all_copy_every : forall copies, all_copy copies = true -> forall k, copies k = true.
@@ -460,9 +696,11 @@ Qed.
 
 (* what `tables_ok` gives, as propositions *)
 Theorem tables_ok_props : forall tbl, tables_ok tbl = true ->
-  every_readout_copies tbl /\ slices_safe tbl /\ tb_label tbl = LAbsolute /\ exports_all tbl /\ visible_std tbl.
+  every_readout_copies tbl /\ slices_safe tbl /\ tb_label tbl = LAbsolute /\ exports_all tbl /\ visible_std tbl /\
+  relabels_all tbl.
 Proof.
   unfold tables_ok. intros tbl H.
+  apply andb_prop in H. destruct H as [H Hr].
   apply andb_prop in H. destruct H as [H Hv]. apply andb_prop in H. destruct H as [H He].
   apply andb_prop in H. destruct H as [Hc Hl].
   assert (C : every_readout_copies tbl) by (intros k; apply all_copy_every; exact Hc).
@@ -477,8 +715,10 @@ Proof.
     apply pairs_eqb_eq in Hp. rewrite forallb_forall in Hz.
     assert (Z : forall b, tb_skip_zero tbl b = bucket_eqb b Charge).
     { intros b. apply eqb_prop. apply Hz. destruct b; simpl; tauto. }
-    intros s. unfold visible_t, visible. rewrite Hp. unfold id_pairs, all_buckets. simpl.
-    rewrite !Z. reflexivity.
+    split.
+    + intros s. unfold visible_t, visible. rewrite Hp. unfold id_pairs, all_buckets. simpl.
+      rewrite !Z. reflexivity.
+    + intros k. rewrite forallb_forall in Hr. apply Hr. destruct k; simpl; tauto.
 Qed.
 
 (* ------------------------------------------------- what `changed_by` means, bucket by bucket *)
